@@ -45,7 +45,11 @@ func puritySession(g *gen.G, idx int) Sess {
 				// cross-document references to the first document: whole document,
 				// with $path, short form
 				pat := map[string]any{"name": "d0"}
-				switch g.N(4) {
+				switch g.N(6) {
+				case 4: // the string forms, whose path is a flow list that starts with a document pattern
+					d["xstr"] = "$replace:[{name: d0}, " + g.Pick([]string{"h0", "t0", "t1"}) + "]"
+				case 5:
+					d["xstrm"] = "$merge:[{name: d0}, " + g.Pick([]string{"h0", "t0"}) + "]"
 				case 0:
 					d["xwhole"] = map[string]any{"$replace": map[string]any{"$match": pat}}
 				case 1:
